@@ -94,7 +94,9 @@ def doc_kind(facts):
         yt = common.trial_functions(facts)["yaml"]
         from model import fn_of
 
-        for bb, t in yt.calls():
+        from model import Super
+
+        for _, _, t in Super(lib, yt, depth=2).calls():
             f = fn_of(t) or {}
             cb = lib.by_id.get(f.get("resolved") or f.get("def"))
             if cb and cb.raw.get("ret_ty") == "bool" and cb.nargs == 1:
